@@ -56,6 +56,19 @@ theorem C15_shorter_run_is_prefix (c : Cfg) (g : Good c) (s₁ s₂ : St) (h₁ 
   rw [List.map_take, C15_any_prefix_is_input_prefix c g s₁ h₁ hm, C15_any_prefix_is_input_prefix c g s₂ h₂ hm,
     List.take_range, Nat.min_eq_left hl]
 
+theorem nodup_of_map_nodup {α β} (f : α → β) : ∀ l : List α, (l.map f).Nodup → l.Nodup
+  | [], _ => List.nodup_nil
+  | a :: l, h => by
+    rw [List.map_cons, List.nodup_cons] at h
+    rw [List.nodup_cons]
+    exact ⟨fun ha => h.1 (List.mem_map_of_mem ha), nodup_of_map_nodup f l h.2⟩
+
+/-- **Never twice**: at no moment of any execution has `next()` returned the same item two times -/
+theorem C15_never_twice (c : Cfg) (g : Good c) (s : St) (h : Reach c s) (hm : 0 < c.m) : s.out.Nodup := by
+  have h1 := C15_any_prefix_is_input_prefix c g s h hm
+  have h2 : (s.out.map (idx c.m)).Nodup := h1 ▸ List.nodup_range
+  exact nodup_of_map_nodup _ _ h2
+
 /-- non-vacuity: a state reached after an out-of-order finish and a drop in the middle of the second round -/
 example : (accepts c23 (init c23) [.wRecv 1, .wSend 1, .wRecv 0, .wSend 0, .cNext, .cNext, .wRecv 0, .wSend 0, .cNext]).map
     (fun s => s.out.map (idx 2)) = some [0, 1, 2] := by decide
